@@ -189,6 +189,11 @@ impl Pool for RustPool {
     fn install(&self, inj: &mut InjectorPP, s: &InstallSpec) {
         let t = rust_target(s.f);
         match s.gate.as_str() {
+            "abandon" => {
+                // a builder dropped without a terminal call
+                let _b = inj.when_called(injectorpp::func!(t, fn(u32) -> bool));
+                return;
+            }
             "sig" => {
                 if s.n >= 0 {
                     SITE_N[s.site - 1].store(s.n as usize, SeqCst);
@@ -333,6 +338,10 @@ impl Pool for LibcPool {
     fn install(&self, inj: &mut InjectorPP, s: &InstallSpec) {
         let t = libc_target(s.f);
         match s.gate.as_str() {
+            "abandon" => {
+                let _b = unsafe { inj.when_called_unchecked(injectorpp::func_unchecked!(t)) };
+                return;
+            }
             "sig" => {
                 inj.when_called(injectorpp::func!(t, unsafe extern "C" fn(*const c_char) -> c_int))
                     .will_execute_raw(injectorpp::func!(fk_wrong_sig, fn(u64) -> bool));
@@ -439,6 +448,10 @@ impl Pool for GenericPool {
     }
     fn install(&self, inj: &mut InjectorPP, s: &InstallSpec) {
         let k = s.k();
+        if s.gate == "abandon" {
+            let _b = inj.when_called(injectorpp::func!(gen_target::<u8>, fn(u8) -> bool));
+            return;
+        }
         if s.gate != "ok" {
             // refusals: a fake of the OTHER instantiation's type
             if s.f == 1 {
@@ -516,6 +529,10 @@ impl Pool for AsyncPool {
     }
     fn install(&self, inj: &mut InjectorPP, s: &InstallSpec) {
         use crate::asyncs::{a1, a2};
+        if s.gate == "abandon" {
+            let _b = inj.when_called_async(injectorpp::async_func!(a1(0), u32));
+            return;
+        }
         if s.gate != "ok" {
             // wrong output type: refused
             if s.f == 1 {
